@@ -53,14 +53,15 @@ CLAIMED['C16'] = dict(
          "for rfind/trim_end/char_indices). Containment: Parser::parse_crate (with ParserBuilder::build), Parser::parse_file_as_module, rewrite_macro and "
          "format_snippet are executed with every call into rustc_parse / rewrite_macro_inner / Session::format_input_inner as environment that returns an "
          "arbitrary value or unwinds, and std::panic::catch_unwind as 'run the real closure, an unwind inside becomes Err': no path leaves the entry point "
-         "by unwinding and a path on which the guarded code unwound returns the failure value (rewrite_macro also sets macro_rewrite_failure). Stack depth "
-         "and aborts inside rustc are outside this technique.",
+         "by unwinding and a path on which the guarded code unwound returns the failure value (rewrite_macro also sets macro_rewrite_failure). Diagnostics: every call that consumes a Result<_, Diag> and discards the error (ok, unwrap_or*, "
+         "map_or*) is collected from the MIR and its function executed with the parser's answer an arbitrary Ok | Err: the Err case never reaches the "
+         "discarding call (an un-emitted Diag panics in its destructor). Stack depth and aborts inside rustc are outside this technique.",
     note="Trusted: MIR printer, mirsym (lazy under-constrained objects; callees outside shape.rs/config/formatting.rs are uninterpreted and havoc their &mut "
          "arguments), all usize quantities assumed < 2^32. Indent - Indent and Indent - usize are caller-contract dependent and listed, not decided. "
          "A solver counterexample is reported only if the real binary panics at the same source line on a generated nested input; containment "
          "counterexamples are replayed with broken literals (root file, standard input, out-of-line module) and with the cfg-guarded fault hook "
-         "RUSTFMT_VERIF_FAULT that makes the formatting of one macro call / one snippet panic in the real binary. Defect found and fixed: the root parser was "
-         "created outside catch_unwind (44be904).",
+         "RUSTFMT_VERIF_FAULT that makes the formatting of one macro call / one snippet panic in the real binary. Defects found and fixed in this area: the root parser was created outside catch_unwind (44be904); parse_expr dropped the parser's "
+         "diagnostic (19eeceb); an inventory entry for MacroBranch::rewrite was wrong, the subtraction underflows inside the usable page (19cacc5).",
     design='§5 C16')
 
 CLAIMED['C07'] = dict(
@@ -250,7 +251,10 @@ CLAIMED['C05'] = dict(
          "format_file error is returned as Err (never swallowed); every format_file call pairs a path with its own module. Emitter kernel: one step of SilentOnIgnoredFilesEmitter::emit_diagnostic from an "
          "arbitrary state (a non-ignorable error was seen / errors may be reset, invariant seen => not resettable) with the diagnostic's level and 'its file is "
          "ignored' symbolic: a non-fatal diagnostic of an ignored file is swallowed and leaves the state alone, every other one is forwarded exactly once, "
-         "recorded, and forbids the reset. Which inputs fail to parse or "
+         "recorded, and forbids the reset. Version gate: Session::format_input_inner from an arbitrary session state with "
+         "version_meets_requirement symbolic - a mismatch is Err(VersionMismatch) with nothing formatted or echoed. Module files: parse_file_as_module with "
+         "rustc_parse returning or unwinding and Path::exists symbolic - an existing file that fails is ParseError; find_external_module over its symbolic "
+         "environment - a module that cannot be located or whose file fails to parse is an error (resolver kernels shared with C13). Which inputs fail to parse or "
          "resolve, config/version errors raised earlier, and what format_file writes (C06) are outside.",
     note="Level other, stated as thin: it decides the gate, not the parser. Trusted: MIR printer, mirsym under-constrained mode, the environment contract above. "
          "Replay: the real binary on module trees with a syntax error / a missing module / a failing root next to a good one, file hashes and exit status, and an "
@@ -263,7 +267,13 @@ CLAIMED['C13'] = dict(
          "path input exactly the modules without skip attribute, not excluded by skip_children (non-root), not matched by `ignore`, and not generated when "
          "format_generated_files is off - each once, in the resolver's order, each path with its own module; for standard input every returned module (the "
          "skip attribute echoes the input instead); the resolver is told to recurse exactly for a path input without skip_children; skip_children with an "
-         "ignored main file formats nothing. Which files the resolver reaches (mod declarations, #[path], cfg_if!, directory ownership) is outside.",
+         "ignored main file formats nothing. Resolver kernels: ParseSess::default_submod_path (nested location first; a second lookup in the own directory "
+         "exactly for a missing file at the nested location; the fallback answers with its file or with the first error, so an ambiguous location stays an "
+         "error); ModResolver::find_external_module for {#[path], by name} x {0, 1 cfg_attr(path) alternatives} over a symbolic environment (a #[path] "
+         "replaces the lookup by name, a file already parsed is not parsed again, a module that cannot be located or parsed is an error, an inner skip "
+         "attribute leaves the file out); ModResolver::visit_sub_mod with peek_sub_mod inlined (a skipped mod item is neither looked up nor walked, a "
+         "declaration is looked up, what is found is entered and walked, the directory is restored after the walk). The cfg_if! / cfg_match! visitors, the "
+         "directory bookkeeping of inline modules, #[path] parsing and rustc_expand itself are outside.",
     note="Level other, stated as thin. Trusted: MIR printer, mirsym, contains_skip / ignore_file / is_generated_file as symbolic predicates per module, the "
          "resolver's result as a harness list with module 0 = the root. Replay: the real binary on a module tree (nested module, unrelated file, generated "
          "file, inner skip attribute, ignore list, skip_children, standard input), comparing which files were rewritten.",
@@ -277,7 +287,8 @@ CLAIMED['C04'] = dict(
          "(2) format_project never hands a module carrying the skip attribute to format_file (path input) and echoes standard input back instead. "
          "(3) Session::format_input_inner reaches format_project only when disable_all_formatting is off (standard input is echoed, a path yields an empty "
          "report). (4) is_generated_file over up to 4 lines with the marker predicate symbolic per line: true iff one of the first "
-         "generated_marker_line_search_limit lines carries the marker. The visitors and rewriters that copy the span of a skipped item / statement / expression / field / arm, skip::macros and "
+         "generated_marker_line_search_limit lines carries the marker. (5) ModResolver::visit_sub_mod with peek_sub_mod inlined: a `mod` item carrying a "
+         "skip attribute is neither looked up, entered in the file map nor walked. The visitors and rewriters that copy the span of a skipped item / statement / expression / field / arm, skip::macros and "
          "skip::attributes are AST code and outside.",
     note="Level other, stated as thin. Trusted: MIR printer, mirsym under-constrained objects for rustc_ast types (unconstrained discriminants, lazily "
          "materialised payloads), pprust::path_to_string / has_name / ThinVec::len as symbolic environment. Replay: the real binary on items under each "
